@@ -29,13 +29,13 @@ theorem wkbScanStep_history_free' (bnd : BoundFn) (d : Dest) (σ σ' : ScanState
 /-- A row written by the encoder, scanned by a reused `ewkb.Scanner`, reads as the coercion table says,
     whatever was scanned before. -/
 theorem ewkbScanStep_encode' (bnd : BoundFn) (d : Dest) (σ : ScanState) (o : Order) (srid : Nat) (g : G)
-    (hw : WF32 g) (hs : srid < 2^32) :
+    (hw : WF32 g) (hs : srid < 2^32) (hd : collDepth g ≤ Generated.Params.wkb_MaxCollectionDepth) :
     (ewkbScanStep bnd false d σ (.bytes (encGeom o srid g))).map ScanState.observe =
       (match coerce bnd d (canon g) with
        | some v => .ok (none, true, some v, srid)
        | none => .ok (some .incorrectGeometry, false, none, 0)) := by
   simp only [ewkbScanStep, ewkbScan, Bool.false_eq_true, if_false]
-  rw [scan_table' bnd d o srid g hw hs]
+  rw [scan_table' bnd d o srid g hw hs hd]
   cases coerce bnd d (canon g) <;> simp [Res.map, ScanState.observe]
 
 end Orb.WKB
